@@ -105,8 +105,25 @@ def rb(rng, n):
     return bytes(rng.getrandbits(8) for _ in range(n))
 
 
-def keyset(rng):
+def odd_path(rng):
+    """a path name whose place in the (code-point) order is decided by a character next to '/': hardened and
+    non-hardened siblings, steps that are prefixes of one another, names outside the BIP32 grammar (the file
+    format does not restrict them)"""
+    if rng.random() < 0.7:
+        steps = rng.choice(PATHS).split("/")
+        i = rng.randrange(1, len(steps))
+        steps[i] = steps[i][:-1] if steps[i].endswith("'") else steps[i] + "'"
+        if rng.random() < 0.3:
+            steps[rng.randrange(1, len(steps))] += rng.choice("0123456789")
+        return "/".join(steps)
+    return "m/" + "".join(rng.choice("'-.+ !0/19aZ~") for _ in range(rng.randrange(1, 8)))
+
+
+def keyset(rng, odd=False):
     keys = {p: certgen.rand_key(rng) for p in PATHS}
+    if odd:
+        for _ in range(rng.randrange(1, 5)):
+            keys[odd_path(rng)] = certgen.rand_key(rng)
     return keys
 
 
@@ -146,7 +163,7 @@ def mutate_msg(rng, msg, hlen):
 
 
 def ledger_case(rng, variant):
-    keys = keyset(rng)
+    keys = keyset(rng, variant == "odd-paths")
     filekeys = dict(keys)
     pkh = pubkeys_hash(keys)
     ui_hash = rb(rng, 32)
@@ -204,7 +221,7 @@ def ledger_case(rng, variant):
 
 
 def sgx_case(rng, variant):
-    keys = keyset(rng)
+    keys = keyset(rng, variant == "odd-paths")
     filekeys = dict(keys)
     pkh = pubkeys_hash(keys)
     msg = powhsm_msg(rng, pkh, platform=b"sgx")
@@ -238,7 +255,7 @@ def sgx_case(rng, variant):
     return Case(OP, inp, stream="sgx-" + variant)
 
 
-VARIANTS = ["genuine", "genuine", "genuine", "other-keys", "order", "path-names", "no-btc-path", "ui-msg", "signer-msg",
+VARIANTS = ["genuine", "genuine", "odd-paths", "odd-paths", "other-keys", "order", "path-names", "no-btc-path", "ui-msg", "signer-msg",
             "missing-target", "bad-signature", "other-root", "no-tweak"]
 
 
